@@ -274,7 +274,7 @@ func c02One(s *Svc, m *spec.Method, l *Layout, v any, r *MethodResult, report bo
 		}
 	}
 	recvN := receivedPayload(s, m, call)
-	if d := Equal(sp, m.Payload, nil, sentN, recvN, "payload"); d != nil {
+	if d := EqualBody(sp, m.Payload, nil, sentN, recvN, "payload", bodyAttrOf(l)); d != nil {
 		var p *Place
 		if l.Whole {
 			p = l.Places[0]
@@ -378,7 +378,7 @@ func delivered(s *Svc, m *spec.Method, v any) bool {
 	if herr != nil || call.ServerPanic != "" || call.Invoked != 1 {
 		return false
 	}
-	return Equal(s.Spec, m.Payload, nil, sentN, receivedPayload(s, m, call), "payload") == nil
+	return EqualBody(s.Spec, m.Payload, nil, sentN, receivedPayload(s, m, call), "payload", bodyAttrOf(RequestLayout(s.Spec, s.Service, m))) == nil
 }
 
 // blame finds the attribute responsible for a delivery failure by substitution: an attribute
@@ -806,4 +806,15 @@ func native2(v any) any {
 		return string(b)
 	}
 	return v
+}
+
+// bodyAttrOf tells which top-level attributes of a layout travel in the (JSON) body.
+func bodyAttrOf(l *Layout) func(string) bool {
+	if l == nil || l.Whole {
+		return nil
+	}
+	return func(attr string) bool {
+		p := l.ByAttr(attr)
+		return p != nil && p.Loc == spec.LocBody
+	}
 }
